@@ -1,8 +1,8 @@
 #!/bin/sh
-# usage: try_patch.sh <patch.diff> <Cnn> [more props]   -- applies the patch to the scratch worktree /tmp/wtm and runs the checks on it
+# usage: try_patch.sh <patch.diff> <Cnn> [more props]   -- applies the patch to the scratch worktree ${WT:-/tmp/wtm} and runs the checks on it
 P="$1"; shift
-git -C /tmp/wtm checkout -q -- . && git -C /tmp/wtm apply "$P" || { echo "APPLY FAILED $P"; exit 3; }
+git -C ${WT:-/tmp/wtm} checkout -q -- . && git -C ${WT:-/tmp/wtm} apply "$P" || { echo "APPLY FAILED $P"; exit 3; }
 for c in "$@"; do
-  /verif/check "$c" --repo /tmp/wtm --no-evidence 2>&1 | grep -E "^FAIL|^ANALYSIS|^OK|^KNOWN" | cut -c1-${WIDTH:-260}
+  /verif/check "$c" --repo ${WT:-/tmp/wtm} --no-evidence 2>&1 | grep -E "^FAIL|^ANALYSIS|^OK|^KNOWN" | cut -c1-${WIDTH:-260}
 done
-git -C /tmp/wtm checkout -q -- .
+git -C ${WT:-/tmp/wtm} checkout -q -- .
